@@ -208,7 +208,7 @@ def numerics(ctx):
     from hiten.algorithms.dynamics import rtbp
     rng = ctx.rng
     mus = [(nm, mu) for nm, mu in catalogue_pairs()]
-    n_rand = 12 if ctx.thorough() else 4
+    n_rand = 80 if ctx.thorough() else 4
     mus += [("random", 10 ** rng.uniform(-9, math.log10(0.5))) for _ in range(n_rand)] + [("half", 0.5)]
     Jm = np.block([[np.zeros((3, 3)), np.eye(3)], [-np.eye(3), np.zeros((3, 3))]])
     for nm, mu in mus:
@@ -257,7 +257,7 @@ def numerics(ctx):
             if k >= 4:
                 # triangular: (omega1, omega2, omega_z) magnitudes are the three frequencies of the linearised equations
                 want = sorted(abs(float(m)) for m in modes)
-                got = sorted(set(np.round(np.abs(ev.imag), 9)))
+                got = sorted(float(z.imag) for z in ev if z.imag > 0)
                 if not (len(got) == 3 and np.allclose(want, got, rtol=1e-6, atol=1e-8)):
                     ctx.violation("linear-modes:L%d" % k, "triangular frequencies %r are not the eigenfrequencies %r of the linearised equations" % (want, got),
                                   {"pair": nm, "mu": mu, "point": k, "linear_modes": [float(m) for m in modes], "eigenvalues_of_jacobian": [complex(z).__repr__() for z in ev]})
@@ -267,7 +267,9 @@ def numerics(ctx):
                 lam, om1, om2 = [float(m) for m in modes]
                 # the service works in time-unscaled local coordinates: exponents are the same as the synodic ones
                 want = sorted([lam, om1, om2])
-                got = sorted([float(np.max(ev.real))] + sorted(set(np.round(np.abs(ev.imag[np.abs(ev.real) < 1e-6 * (1 + np.abs(ev).max())]), 9)))[-2:])
+                # the two centre pairs +-i*omega: positive imaginary parts of the eigenvalues with (numerically) zero real part -- NOT a
+                # set: at L3 with tiny mu the planar and vertical frequencies agree to more than 9 digits
+                got = sorted([float(np.max(ev.real))] + sorted(float(z.imag) for z in ev if abs(z.real) < 1e-6 * (1 + np.abs(ev).max()) and z.imag > 0)[-2:])
                 if not np.allclose(want, got, rtol=1e-6, atol=1e-8):
                     ctx.violation("linear-modes:L%d" % k, "linear exponent/frequencies %r are not the eigenvalues %r of the linearised equations" % (want, got),
                                   {"pair": nm, "mu": mu, "point": k, "linear_modes": [lam, om1, om2], "eigenvalues_of_jacobian": [complex(z).__repr__() for z in ev]})
